@@ -95,7 +95,8 @@ PROPERTIES = {
     ),
     "C08": dict(
         modules=["contracts.c08_fragments", "contracts.c10_order", "contracts.c01_inline"],
-        bounded=[_bounded.lazy("contracts.c08_fragments", "bounded_fragment_order"), _bounded.lazy("contracts.e2e_fragments", "bounded_scenarios")],
+        bounded=[_bounded.lazy("contracts.c08_fragments", "bounded_fragment_order"), _bounded.lazy("contracts.e2e_fragments", "bounded_scenarios"),
+                 _bounded.lazy("contracts.e2e_plugins", "bounded_plugins")],
         explanation="@mixin argument parsing and base/import bookkeeping under contract; fragment class ordering by exhaustive bounded stand-in",
         assumptions=["that a class listed as base validates the same payload is pydantic's inheritance (assumed)"],
     ),
